@@ -13,6 +13,8 @@ import subprocess
 import time
 
 from . import extract
+
+HERE = os.path.dirname(os.path.dirname(os.path.abspath(__file__)))
 from .rsparse import ExtractError
 
 VERIF = os.path.dirname(os.path.dirname(os.path.abspath(__file__)))
@@ -116,6 +118,21 @@ def _run_group_in(name, outdir, rlimit=None, canary_calls=None, timeout=600):
             res['partial'] = 'units not verified on this tree (code shape changed): ' + ' || '.join(reasons)
         return res
     return res
+
+
+_PINNED = None
+
+
+def _pinned():
+    """contracts/pinned_shapes.json: the shape of every unit on the tree the contracts were written for (tools/pin_shapes.py)"""
+    global _PINNED
+    if _PINNED is None:
+        try:
+            with open(os.path.join(HERE, 'contracts', 'pinned_shapes.json')) as f:
+                _PINNED = json.load(f)['groups']
+        except (OSError, ValueError, KeyError):
+            _PINNED = {}
+    return _PINNED
 
 
 def _run_group_once(name, outdir, rlimit=None, canary_calls=None, timeout=600, stub=()):
@@ -270,6 +287,22 @@ def _run_group_once(name, outdir, rlimit=None, canary_calls=None, timeout=600, s
         res['reason'] = 'vacuity guard: no solver query was generated for unit(s) %s' % missing
         return res
     if res['failures']:
+        # an obligation of a unit whose body was RE-SHAPED (the rewrites of 1.1 apply a different number of times than on the tree
+        # the contract file was written for) is undischarged, not refuted: the proof hints and the modelled std calls no longer
+        # line up with the code. Such a unit is given up (stubbed to its contract, its bounded suites stand in); an obligation of a
+        # unit whose shape is unchanged -- an in-place edit, or a changed callee / constant -- is reported as rejected.
+        pinned = _pinned().get(name)
+        now = extract.unit_shapes(log)
+        body_units = set(m['id'] for m in metas if m.get('mode') == 'body' and m.get('kind') == 'fn')
+        reshaped = sorted(set(fl['unit'] for fl in res['failures']
+                              if pinned is not None and fl.get('unit') in body_units and pinned.get(fl['unit'], {}) != now.get(fl['unit'], {})))
+        if reshaped:
+            res['soft'] = True
+            res['culprits'] = reshaped
+            res['reason'] = 'obligation(s) of re-shaped unit(s) no longer discharged (undecided, not refuted): ' + '; '.join(
+                '%s: %s' % (fl['unit'], fl['message']) for fl in res['failures'] if fl.get('unit') in reshaped)[:400]
+            res['failures'] = []
+            return res
         res['status'] = 'failed'
         res['reason'] = '%d obligation(s) rejected' % len(res['failures'])
         return res
